@@ -19,6 +19,7 @@ LEVEL_NOTE = ("Not decided: that the cited locations are the right ones for ever
 LEVEL_TEXT += (" Every local binding in lazy mode goes through store.add (a thunk carrying the binding statement's context), on every successful path.")
 
 LEVEL_TEXT += (" The evaluation of a scoped definition's scope inside LazyScopedVariables::force is wrapped with that definition's stored debug info.")
+LEVEL_TEXT += (' StatementContext.statement / .statement_location are written only from a statement of the running block (new, update_statement, or the spelled-out pair); (E2.x-h) an ExecutionError is formatted only by the display code of error.rs.')
 WC = r"ResultWithExecutionError<R>>::with_context$|ResultWithExecutionError::with_context$"
 
 
@@ -162,6 +163,45 @@ def run(prog, rep):
             w[fl2[-1]["name"]] = canon_full(tr.rvalue(st["rv"]))
         rep.check(set(w) == {"statement", "statement_location"} and "new_display(&arg:stmt)" in w["statement"] and w["statement_location"] == "strict::location(&*arg:stmt)", "E2.x-c", "StatementContext::update_statement", f.loc(),
                   "refreshes statement text and location only", "update_statement writes %s" % {k: v[:60] for k, v in w.items()})
+    # the cited statement is set from a Statement by StatementContext::new / update_statement only: nobody writes other text
+    # (a declaration, a made-up label) or another location into a context
+    from ..engines import e5_writers as e5w
+    nwr = 0
+    ITEMS = r"(?:\(Iterator::next\(.*\.statements\)*\) as Some\)\.0|arg:stmt|arg:statement)"
+    for fld in ("statement", "statement_location", "stanza_location", "source_location", "node_kind"):
+        for wf, kind, op, where, wb, wst in e5w.field_mutations(prog, "tsg::execution::error::StatementContext", fld):
+            nwr += 1
+            key = "StatementContext.%s :: %s in %s" % (fld, op, wf.id)
+            val = canon_full(Tracer(wf.body).rvalue(wst["rv"])) if kind == "assign" else ""
+            if wf.name == "update_statement" and wf.self_path == "tsg::execution::error::StatementContext":
+                rep.ok("E2.x-c", key, where, "update_statement(stmt)")
+            elif fld == "statement" and re.match(r'^hint::must_use\(fmt::format\(Arguments::new\(&\*b"\\xc0\\x00", &array\{Argument::new_display\(&?\*?' + ITEMS + r'\)\}\)\)\)$', val):
+                rep.ok("E2.x-c", key, where, "the text of the statement about to run")
+            elif fld == "statement_location" and re.match(r"^(\w+::)*location\(&?\*?" + ITEMS + r"\)$", val):
+                rep.ok("E2.x-c", key, where, "the location of the statement about to run")
+            else:
+                rep.violation("E2.x-c", key, where, "StatementContext.%s is written with `%s`: the statement / stanza / node cited by an error context is set only from a statement of the running block (StatementContext::new, update_statement(stmt), or the same two assignments spelled out)" % (fld, val[:160]))
+    rep.floor("E2.x-c", nwr, 2, "writes of StatementContext fields")
+    # ---- (h) an error is rendered to text only for display: nothing in the library formats an ExecutionError into the message of
+    # another error (that flattens its context chain, and the new error then gets the context of whoever handles it)
+    rep.rule("E2.x-h", "an ExecutionError is formatted only by the Display / pretty impls of error.rs: no library code renders an error (and its context) into another error's message")
+    nh = 0
+    for f in sorted(prog.shape_fns(), key=lambda x: x.id):
+        if f.body is None or f.crate.prefix != "tsg":
+            continue
+        for b, t in f.body.calls():
+            if not is_callee(t, r"fmt::rt::Argument::<'_>::new_(display|debug)$", r"ToString::to_string$"):
+                continue
+            fr = callee_fn(t)
+            at = f.crate.peel(fr["targs"][0]) if fr.get("targs") else None
+            tn = at.path if at is not None and at.k == "adt" else ""
+            if tn != "tsg::execution::error::ExecutionError":
+                continue
+            nh += 1
+            own = f.file.startswith("src/execution/error") and (f.name in ("fmt", "fmt_entry") or f.trait in ("std::fmt::Display", "std::fmt::Debug"))
+            rep.check(own, "E2.x-h", "%s :: formats an ExecutionError" % f.id, sp_str(t["sp"]), "display code of error.rs",
+                      "%s renders an ExecutionError to text outside the display code: the error's own statement context is flattened into a message and lost" % f.id)
+    rep.floor("E2.x-h", nh, 2, "places that format an ExecutionError")
     # ---- (d) deferred work keeps its origin
     rep.rule("E2.x-d", "deferred statements, thunks and scoped definitions are created with the executing context's error_context; every deferred evaluation re-attaches it")
     nd = 0
